@@ -297,6 +297,13 @@ func (p *Core) execMut(op sim.Op) {
 		msg = ps.AckMsg(h, ps.Ack1, ps.Ack2, signer.String())
 	}
 	orig, _ := proto.Marshal(msg)
+	// mutate a deep copy: the message built from the ghost packet shares its payload / data /
+	// acknowledgement slices with the ghost, which must stay what was really sent
+	if cp, ok := reflect.New(reflect.TypeOf(msg).Elem()).Interface().(proto.Message); ok && proto.Unmarshal(orig, cp) == nil {
+		msg = cp.(sdk.Msg)
+	} else {
+		sim.Failf("cannot copy %T for mutation", msg)
+	}
 	var ls []leaf
 	leaves(reflect.ValueOf(msg), "", &ls)
 	if len(ls) == 0 {
